@@ -585,6 +585,9 @@ class PDFStandardSecurityHandlerV4(PDFStandardSecurityHandler):
         )
         hash = md5(key)
         key = hash.digest()[: min(len(key), 16)]
+        if len(data) < 16:
+            # too short to hold the initialization vector: not AES data
+            return data
         initialization_vector = data[:16]
         ciphertext = data[16:]
         cipher = Cipher(
@@ -712,6 +715,9 @@ class PDFStandardSecurityHandlerV5(PDFStandardSecurityHandlerV4):
         return encryptor.update(data) + encryptor.finalize()  # type: ignore
 
     def decrypt_aes256(self, objid: int, genno: int, data: bytes) -> bytes:
+        if len(data) < 16:
+            # too short to hold the initialization vector: not AES data
+            return data
         initialization_vector = data[:16]
         ciphertext = data[16:]
         assert self.key is not None
